@@ -665,10 +665,12 @@ Definition decide (q : req) (v : option sview) : decision :=
     end
   end.
 
-(* `sid in self.sockets` then _get_socket(sid): a closed entry is reaped on the way *)
+(* `sid in self.sockets` then _get_socket(sid): a closed entry is reaped on the way.  Only the GET and POST branches of handle_request
+   look the session up: an OPTIONS request that names a session does not touch the table *)
 Definition lookup_view (q : req) : M (option sview) :=
   match decide_early q, r_sid q with
   | None, Some (SKnown i) =>
+    if match r_method q with MOptions => true | _ => false end then ret None else
     it <- in_table i ;;
     if negb it then ret None
     else ok <- get_socket i ;;
